@@ -431,7 +431,9 @@ def judge_plain_text_enum(rep, distinct, cs, cfg, d, cls, doc, out):
 
 def judge_wire(prop, rep, distinct, c, g, cs, cfg, d, v, cls, doc, out):
     import wire
-    if prop == "C10" and not (d.kind in ("enum", "union") or cls.startswith("exhaustive/") or cls.startswith("unknown/")):
+    # C10 looks at enums and unions themselves and, for valid documents, at the objects that hold them (a listed value is
+    # itself wherever it sits, in both configurations and under both deserializers)
+    if prop == "C10" and not (d.kind in ("enum", "union") or cls.startswith("exhaustive/") or cls.startswith("unknown/") or (d.kind == "object" and cls in ("canonical", "non-canonical"))):
         return
     if prop == "C02" and cls.startswith("unknown/"):
         return
@@ -536,7 +538,7 @@ def unknown_docs(r, d):
             if n and n not in d.values:
                 out.append(("unknown/unlisted-enum-value", json.dumps(n)))
     else:
-        payloads = ["null", "1", "-0.5", "\"NaN\"", "\"text\"", "[]", "[1,[2,{\"a\":null}]]", "{}", "{\"type\":\"nested\",\"nested\":{\"k\":[true]}}", "{\"deep\":{\"deeper\":{\"deepest\":[1,2,3]}}}"]
+        payloads = ["null", "1", "-0.5", "18446744073709551615", "{\"big\":[9223372036854775808,-9223372036854775808]}", "\"NaN\"", "\"text\"", "[]", "[1,[2,{\"a\":null}]]", "{}", "{\"type\":\"nested\",\"nested\":{\"k\":[true]}}", "{\"deep\":{\"deeper\":{\"deepest\":[1,2,3]}}}"]
         listed = [f[0] for f in d.fields]
         for name in ["zzFuture", "unknown", "Type", "", "ünï", "value"] + ([listed[0] + "2"] if listed else []):
             if name in listed or name == "type":
@@ -634,6 +636,15 @@ def typed_labs(tier, seed, tag, errors=0):
                 tries += 1
         labs.append((cs, cfg, g))
     specs = []
+    if tag == "errs":
+        # names whose Rust identifier differs from the declared name (runs of capitals, `Self`) and safe-argument names whose
+        # byte order differs from their case-insensitive order: every run has them (first lab)
+        import ir as irb
+        g0 = labs[0][2]
+        I_, S_ = irb.prim("INTEGER"), irb.prim("STRING")
+        for nm, ns in (("HTTPUpstreamError", "Gateway"), ("DBConnectionLost", "Storage"), ("Self", "Identity"), ("IOFailure", "Disk")):
+            if nm.lower() not in g0.used_names:
+                g0.add_error(nm, g0.p.packages[0], ns, "CUSTOM_CLIENT", [("maxRetries", I_), ("maximum", I_), ("attempt", S_), ("zulu", S_), ("alpha", S_), ("alphaBeta", I_), ("alpha2", I_), ("maxZ", I_)], [("token", S_), ("maximumValue", I_)])
     if tag == "laws":
         # layout-sensitive shapes (found by finding C14-union-order-reads-payload-bytes) ride along in the first lab of every run
         from gen import layout_sensitive_types
